@@ -9,6 +9,7 @@ import (
 	"reflect"
 	"sort"
 	"strings"
+	"sync"
 	"testing"
 
 	"github.com/go-gts/gts"
@@ -411,6 +412,46 @@ func c11Check(c c11Case) *Violation {
 			}
 		}
 		results = append(results, past{op, r1, d1})
+	}
+	// the same operations on the very same values from three goroutines at once: values that are only read can be
+	// shared (what every operation promises by not changing its arguments); each goroutine must see the results the
+	// calls gave one after the other. Schedule-dependent: a failure is real, a pass proves little.
+	if len(results) > 0 {
+		var mu sync.Mutex
+		var first *Violation
+		var wg sync.WaitGroup
+		for g := 0; g < 3; g++ {
+			wg.Add(1)
+			go func() {
+				defer wg.Done()
+				for round := 0; round < 3; round++ {
+					for _, p := range results {
+						var r interface{}
+						pi := guard(func() { r = p.op.apply(x.seq, y.seq) })
+						d := ""
+						if pi == nil {
+							d = resultDump(r)
+						}
+						mu.Lock()
+						if first == nil {
+							if pi != nil {
+								first = panicViolation(fmt.Sprintf("%s from three goroutines at once", p.op), pi)
+							} else if d != p.dump {
+								first = viol("concurrent", "%s from three goroutines at once on the same values gives\n%s\nalone it gave\n%s", p.op, firstDiffContext(d, p.dump), firstDiffContext(p.dump, d))
+							}
+						}
+						mu.Unlock()
+					}
+				}
+			}()
+		}
+		wg.Wait()
+		if first != nil {
+			return first
+		}
+		if ax := x.snapshot(); ax != sx {
+			return viol("argument-modified", "the operations run from three goroutines changed their first argument:\nbefore: %s\nafter:  %s", firstDiffContext(sx, ax), firstDiffContext(ax, sx))
+		}
 	}
 	return nil
 }
